@@ -127,6 +127,47 @@ class MonQueue(queue.Queue):
         return queue.Queue.get(self, block, timeout)
 
 
+class ManagedLock:
+    """Stands for a threading.Lock / RLock that the code under test keeps on
+    the BertE instance: under the controlled scheduler an acquisition of a
+    held lock is a scheduler block (the scheduler cannot see through a real
+    lock); without a scheduler it is a real re-entrant lock."""
+    def __init__(self, sched):
+        self.sched = sched
+        self.real = threading.RLock()
+        self.owner = None
+        self.depth = 0
+
+    def acquire(self, blocking=True, timeout=-1):
+        if self.sched is None:
+            return self.real.acquire(blocking, timeout)
+        me = threading.get_ident()
+        if self.owner == me:
+            self.depth += 1
+            return True
+        if self.owner is not None:
+            if not blocking:
+                return False
+            self.sched.block_until(lambda: self.owner is None)
+        self.owner, self.depth = me, 1
+        return True
+
+    def release(self):
+        if self.sched is None:
+            return self.real.release()
+        self.depth -= 1
+        if self.depth <= 0:
+            self.owner, self.depth = None, 0
+
+    def locked(self):
+        return self.owner is not None
+
+    __enter__ = acquire
+
+    def __exit__(self, *a):
+        self.release()
+
+
 class NullGit:
     def reset(self):
         pass
@@ -206,6 +247,11 @@ class Env:
         b.git_repo = NullGit()
         b.tmpdir = None
         b.task_queue = MonQueue(mon, sched)
+        # locks kept on the instance become scheduler-aware
+        lock_types = (type(threading.Lock()), type(threading.RLock()))
+        for name, value in list(vars(b).items()):
+            if isinstance(value, lock_types):
+                setattr(b, name, ManagedLock(sched))
         return b
 
     def make_job(self, berte, key, ev, outcome):
